@@ -374,9 +374,13 @@ pub fn run(ctx: &Ctx) -> i32 {
         }
     }
     // enumerate cases
-    let kinds: Vec<u8> = if thorough { vec![0, 1, 2] } else { vec![0] };
     let mut cases: Vec<(usize, usize, Corr, Strat)> = Vec::new();
     for (si, s) in subjects.iter().enumerate() {
+        // full depth (3 base inputs, 3 replacement values, every cell under every strategy) on the
+        // standard configuration; the configuration deviations get one base input, replacement v+1
+        // and strategy x cell combinations on every 3rd cell
+        let full = thorough && s.cfg_name == "std";
+        let kinds: Vec<u8> = if full { vec![0, 1, 2] } else { vec![0] };
         let nc = s.built.data.common.config.num_challenges;
         let n_targets = s.identity.len();
         let rm = &s.built.data.prover_only.representative_map;
@@ -386,7 +390,7 @@ pub fn run(ctx: &Ctx) -> i32 {
             *class_size.entry(rm[i]).or_insert(0usize) += 1;
         }
         let classes: Vec<usize> = class_size.iter().filter(|(_, n)| **n >= 2).map(|(r, _)| *r).collect();
-        for bi in 0..s.bases.len() {
+        for bi in 0..(if full || !thorough { s.bases.len() } else { 1 }) {
             cases.push((si, bi, Corr::None, Strat::S0));
             // every cell and every virtual target, individually
             for i in 0..n_targets {
@@ -427,7 +431,7 @@ pub fn run(ctx: &Ctx) -> i32 {
                 v
             };
             for st in &combo_strats {
-                let step = if thorough { 1 } else { 5 };
+                let step = if full { 1 } else if thorough { 3 } else { 5 };
                 for i in (0..s.sc.degree * nw).step_by(step) {
                     // S6 is only interesting on lookup-related cells; keep all for simplicity of the rule
                     cases.push((si, bi, Corr::Cell(i, 0), *st));
@@ -474,7 +478,7 @@ pub fn run(ctx: &Ctx) -> i32 {
             "multi-cell coordinated corruptions and strategies outside S0-S6 are not explored (deviation bound 1 + one strategy)".into(),
             "the oracle trusts each gate's eval_unfiltered (gate-level strength is C07's job) and the harness restatement of lookup padding".into(),
             "a false proof is rejected at zeta in F_p^2 except with probability ~2^-110, so 2 FRI queries suffice for these verdicts".into(),
-            "quick tier: replacement v+1 only, first base input only, strategy x cell combinations on every 5th cell".into(),
+            "quick tier: replacement v+1 only, first base input only, strategy x cell combinations on every 5th cell; thorough tier: full depth (3 inputs, 3 replacements, every cell under every strategy) on the standard configuration, one input / v+1 / every 3rd cell for the 9 configuration deviations".into(),
         ],
         extra: json!({}),
     })
